@@ -18,6 +18,7 @@ Install(st) ==
   /\ deleg' = st.deleg /\ stray' = st.stray /\ unb' = st.unb /\ dbal' = st.dbal /\ bal' = st.bal
   /\ redelTo' = st.redelTo /\ pend' = st.pend /\ drew' = st.drew /\ orew' = st.orew
   /\ burned' = st.burned /\ alien' = st.alien /\ odd' = st.odd
+  /\ obj' = st.obj /\ late' = st.late
   /\ UNCHANGED cvars
 
 PInit == Init /\ l = 1
@@ -32,6 +33,7 @@ P_C13_RecoverableOnce      == [][R(A_C13_RecoverableOnce)]_<<vars, l>>
 P_C13_RemovalNotBlocked    == [][R(A_C13_RemovalNotBlocked)]_<<vars, l>>
 P_C13_ConfirmerNeverSlashed == [][R(A_C13_ConfirmerNeverSlashed)]_<<vars, l>>
 P_C13_OfflineOnlyForCause  == [][R(A_C13_OfflineOnlyForCause)]_<<vars, l>>
+P_C13_JoinedOnActivation   == [][R(A_C13_JoinedOnActivation)]_<<vars, l>>
 
 \* all lines consumed
 Consumed == TLCGet("stats").diameter - 1 = Len(Trace)
